@@ -77,6 +77,51 @@ func kvDelCasCmd(k string, cidx uint64) cmd {
 		fsm:   kvsFSM(api.KVDeleteCAS, mk)}
 }
 
+// ---------------------------------------------------------------- KV locks and sessions (direct)
+
+func lockEnt(k, v string, fl uint64, sess string) structs.DirEntry {
+	return structs.DirEntry{Key: k, Value: []byte(v), Flags: fl, Session: sess}
+}
+
+func kvLockCmd(unlock bool, k, v string, fl uint64, sess string) cmd {
+	mk := func() structs.DirEntry { return lockEnt(k, v, fl, sess) }
+	args := fmt.Sprintf("%s %s %d %s", hx.EncS(k), hx.EncS(v), fl, hx.EncS(sess))
+	if unlock {
+		return cmd{name: "kvunlock", args: args,
+			store: func(st *state.Store, idx uint64) string { e := mk(); return resBoolErr(st.KVSUnlock(idx, &e)) },
+			fsm:   kvsFSM(api.KVUnlock, mk)}
+	}
+	return cmd{name: "kvlock", args: args,
+		store: func(st *state.Store, idx uint64) string { e := mk(); return resBoolErr(st.KVSLock(idx, &e)) },
+		fsm:   kvsFSM(api.KVLock, mk)}
+}
+
+func sessCreateCmd(id, node, behavior string) cmd {
+	mk := func() structs.Session {
+		return structs.Session{ID: id, Node: node, Behavior: structs.SessionBehavior(behavior)}
+	}
+	return cmd{name: "sesscreate", args: fmt.Sprintf("%s %s %s", hx.EncS(id), hx.EncS(node), hx.EncS(behavior)),
+		store: func(st *state.Store, idx uint64) string { e := mk(); return resErr(st.SessionCreate(idx, &e)) },
+		fsm: func(f *fsm.FSM, idx uint64) string {
+			out := fsmApply(f, idx, structs.SessionRequestType, &structs.SessionRequest{Datacenter: "dc1", Op: structs.SessionCreate, Session: mk()})
+			if got, ok := out.(string); ok { // the FSM answers with the session ID
+				if got != id {
+					return "unexpected-session-id:" + got
+				}
+				return "nil"
+			}
+			return resIface(out)
+		}}
+}
+
+func sessDestroyCmd(id string) cmd {
+	return cmd{name: "sessdestroy", args: hx.EncS(id),
+		store: func(st *state.Store, idx uint64) string { return resErr(st.SessionDestroy(idx, id, nil)) },
+		fsm: func(f *fsm.FSM, idx uint64) string {
+			return resIface(fsmApply(f, idx, structs.SessionRequestType, &structs.SessionRequest{Datacenter: "dc1", Op: structs.SessionDestroy, Session: structs.Session{ID: id}}))
+		}}
+}
+
 // ---------------------------------------------------------------- transactions
 
 type top struct {
@@ -90,10 +135,13 @@ type opCond struct {
 	typ, rule string
 	cidx      uint64
 	read      func(st *state.Store) ent
+	// judge, when set, replaces rule/cidx/read: the condition is not an index comparison
+	// (lock holder, key absence)
+	judge func(st *state.Store) (matched bool, pre ent)
 }
 
 func (t top) cond(typ, rule string, cidx uint64, read func(st *state.Store) ent) top {
-	t.oc = &opCond{typ, rule, cidx, read}
+	t.oc = &opCond{typ: typ, rule: rule, cidx: cidx, read: read}
 	return t
 }
 
@@ -130,6 +178,43 @@ func tKVCas(k, v string, fl, cidx uint64) top {
 }
 func tKVDelCas(k string, cidx uint64) top {
 	return kvTop(api.KVDeleteCAS, fmt.Sprintf("kdc;%s;%d", hx.EncS(k), cidx), k, "", 0, cidx).cond("kvDeleteCasTxn", "del-kv", cidx, readKV(k))
+}
+
+func lockTop(verb api.KVOp, tok, k, v string, fl uint64, sess string) top {
+	return top{tok: tok, mk: func() *structs.TxnOp {
+		return &structs.TxnOp{KV: &structs.TxnKVOp{Verb: verb, DirEnt: lockEnt(k, v, fl, sess)}}
+	}}
+}
+func tKVLock(k, v string, fl uint64, sess string) top {
+	t := lockTop(api.KVLock, fmt.Sprintf("kl;%s;%s;%d;%s", hx.EncS(k), hx.EncS(v), fl, hx.EncS(sess)), k, v, fl, sess)
+	t.oc = &opCond{typ: "kvLockTxn", judge: func(st *state.Store) (bool, ent) { return lockMatched(st, k, sess), readKV(k)(st) }}
+	return t
+}
+func tKVUnlock(k, v string, fl uint64, sess string) top {
+	t := lockTop(api.KVUnlock, fmt.Sprintf("ku;%s;%s;%d;%s", hx.EncS(k), hx.EncS(v), fl, hx.EncS(sess)), k, v, fl, sess)
+	t.oc = &opCond{typ: "kvUnlockTxn", judge: func(st *state.Store) (bool, ent) { return unlockMatched(st, k, sess), readKV(k)(st) }}
+	return t
+}
+func tKVCheckSession(k, sess string) top {
+	t := lockTop(api.KVCheckSession, "kcs;"+hx.EncS(k)+";"+hx.EncS(sess), k, "", 0, sess)
+	t.oc = &opCond{typ: "kvCheckSession", judge: func(st *state.Store) (bool, ent) {
+		e := readKV(k)(st)
+		return e.present && kvSession(e) == sess, e
+	}}
+	return t
+}
+func tKVCheckIndex(k string, cidx uint64) top {
+	return kvTop(api.KVCheckIndex, fmt.Sprintf("kci;%s;%d", hx.EncS(k), cidx), k, "", 0, cidx).cond("kvCheckIndex", "del", cidx, readKV(k))
+}
+func tKVCheckNotExists(k string) top {
+	t := kvTop(api.KVCheckNotExists, "kcn;"+hx.EncS(k), k, "", 0, 0)
+	t.oc = &opCond{typ: "kvCheckNotExists", judge: func(st *state.Store) (bool, ent) { e := readKV(k)(st); return !e.present, e }}
+	return t
+}
+func tSessDel(id string) top {
+	return top{tok: "sdel;" + hx.EncS(id), mk: func() *structs.TxnOp {
+		return &structs.TxnOp{Session: &structs.TxnSessionOp{Verb: api.SessionDelete, Session: structs.Session{ID: id}}}
+	}}
 }
 
 func nodeTop(verb api.NodeOp, tok, n, addr, id string, cidx uint64) top {
@@ -420,6 +505,18 @@ func tokSetCmd(cas bool, ts []tokReq) cmd {
 		},
 		fsm: func(f *fsm.FSM, idx uint64) string {
 			return resIface(fsmApply(f, idx, structs.ACLTokenSetRequestType, &structs.ACLTokenBatchSetRequest{Tokens: mkToks(ts), CAS: cas}))
+		}}
+}
+
+// tokBootCmd is ACLBootstrap: conditional on the reset index.
+func tokBootCmd(reset uint64, t tokReq) cmd {
+	mk := func() *structs.ACLToken {
+		return &structs.ACLToken{AccessorID: t.acc, SecretID: t.sec, Description: t.desc}
+	}
+	return cmd{name: "tokboot", args: fmt.Sprintf("%d %s;%s;%s;0", reset, hx.EncS(t.acc), hx.EncS(t.sec), hx.EncS(t.desc)),
+		store: func(st *state.Store, idx uint64) string { return resErr(st.ACLBootstrap(idx, reset, mk())) },
+		fsm: func(f *fsm.FSM, idx uint64) string {
+			return resIface(fsmApply(f, idx, structs.ACLBootstrapRequestType, &structs.ACLTokenBootstrapRequest{Token: *mk(), ResetIndex: reset}))
 		}}
 }
 
